@@ -141,6 +141,11 @@ def check_history (c):
     freqs = [f0 * float (rng.uniform (0.7, 1.4)) for k in range (nf)]
     if rng.random () < 0.5:
         freqs.append (freqs [0])          # come back to an earlier frequency
+    # a frequency that differs from the one before by parts per million or less (fine sweeps across a resonance)
+    rq = np.random.default_rng ([c ['seed'], 145, c ['i']])
+    if rq.random () < 0.5:
+        k = int (rq.integers (0, len (freqs)))
+        freqs.insert (k + 1, freqs [k] * (1 + float (rq.choice ([1e-9, 4e-7, 3e-6, 9e-6, -6e-6, 2e-5]))))
     ops = []
     for f in freqs:
         ops.append (('f', f))
@@ -168,6 +173,7 @@ def check_history (c):
     for step, op in enumerate (ops):
         if op [0] == 'f':
             m.f = op [1]
+            f_asked = op [1]
             last = dict (far = None, near = None)
             continue
         if op [0] == 'compute':
@@ -186,7 +192,7 @@ def check_history (c):
             continue
         # ---- fresh object for the current frequency, same last requests
         s2 = copy.deepcopy (spec)
-        s2 ['f'] = m.f
+        s2 ['f'] = f_asked          # the frequency that was asked for (not what the object says it has)
         fr = gen.build (s2)
         observe.solve (fr)
         # a far / near table computed before the last compute () of the history object at this frequency is
@@ -252,7 +258,7 @@ def check_sweep (c):
     spec = loaded_model (rng, cli_sources = True)
     argv = gen.to_argv (spec)
     n    = int (rng.integers (2, 5))
-    inc  = spec ['f'] * float (rng.choice ([0.01, 0.05, -0.03, 0.2]))
+    inc  = spec ['f'] * float (rng.choice ([0.01, 0.05, -0.03, 0.2, 0.01, 0.05, 3e-6, 8e-6]))
     extra = ['--theta=0,30,3', '--phi=0,90,2']
     if rng.random () < 0.4:
         lam = gen.C_MHZ / spec ['f']
